@@ -487,3 +487,494 @@ Proof.
     + rewrite parse_nodeid_groups by apply L. rewrite Hx.
       rewrite (parse_hex_hex_bytes [a; b; c; d; e; f; g; h] false W) by discriminate. now rewrite B.
 Qed.
+
+(* ------------------------------------------------------------------ *)
+(* B05b: IPv6 text (netip.Addr.AppendTo / netip.parseIPv6)             *)
+(* ------------------------------------------------------------------ *)
+Definition nibbles : list N := [0; 1; 2; 3; 4; 5; 6; 7; 8; 9; 10; 11; 12; 13; 14; 15].
+Lemma hexdig_checked :
+  forallb (fun x => is_hexdigit (hexdig x) && (hexval (hexdig x) =? x) && ordinary (hexdig x)) nibbles = true.
+Proof. vm_compute. reflexivity. Qed.
+Lemma hexdig_ok x : x < 16 ->
+  is_hexdigit (hexdig x) = true /\ hexval (hexdig x) = x /\ ordinary (hexdig x) = true.
+Proof.
+  intro H. pose proof hexdig_checked as C. rewrite forallb_forall in C.
+  assert (Hin : In x nibbles) by (unfold nibbles; cbn [In]; lia).
+  specialize (C x Hin). apply andb_prop in C. destruct C as [C C3]. apply andb_prop in C. destruct C as [C1 C2].
+  apply N.eqb_eq in C2. auto.
+Qed.
+
+Definition nonhex_head (rest : bytes) : Prop :=
+  match rest with [] => True | c :: _ => is_hexdigit c = false end.
+
+Lemma hexrun_stop rest off acc : nonhex_head rest -> hexrun rest off acc = Some (off, acc, rest).
+Proof. destruct rest as [|c r]; [reflexivity|]. cbn. intro H. now rewrite H. Qed.
+
+Lemma hexrun_dig x r off acc : x < 16 -> (off <= 3)%nat ->
+  hexrun (hexdig x :: r) off acc = hexrun r (S off) (acc * 16 + x).
+Proof.
+  intros Hx Ho. destruct (hexdig_ok x Hx) as (A & B & _). cbn [hexrun]. rewrite A, B.
+  replace (3 <? off)%nat with false by lia. reflexivity.
+Qed.
+
+Lemma hex_word_len g : (1 <= length (hex_word g) <= 4)%nat.
+Proof. unfold hex_word. destruct (g <? 16); [cbn; lia|]. destruct (g <? 256); [cbn; lia|]. destruct (g <? 4096); cbn; lia. Qed.
+
+Lemma hexrun_word g rest : g < 65536 -> nonhex_head rest ->
+  hexrun (hex_word g ++ rest) 0 0 = Some (length (hex_word g), g, rest).
+Proof.
+  intros Hg Hr. unfold hex_word.
+  destruct (N.ltb_spec g 16) as [H1|H1].
+  { cbn [app length]. rewrite hexrun_dig by lia. rewrite hexrun_stop by exact Hr. f_equal. }
+  destruct (N.ltb_spec g 256) as [H2|H2].
+  { cbn [app length].
+    assert (g / 16 < 16) by (apply N.div_lt_upper_bound; lia). assert (g mod 16 < 16) by (apply N.mod_lt; lia).
+    rewrite !hexrun_dig by lia. rewrite hexrun_stop by exact Hr. do 3 f_equal.
+    pose proof (N.div_mod g 16 ltac:(lia)). lia. }
+  destruct (N.ltb_spec g 4096) as [H3|H3].
+  { cbn [app length].
+    assert (g / 256 < 16) by (apply N.div_lt_upper_bound; lia).
+    assert (g / 16 mod 16 < 16) by (apply N.mod_lt; lia). assert (g mod 16 < 16) by (apply N.mod_lt; lia).
+    rewrite !hexrun_dig by lia. rewrite hexrun_stop by exact Hr. do 3 f_equal.
+    pose proof (N.div_mod g 16 ltac:(lia)) as A. pose proof (N.div_mod (g / 16) 16 ltac:(lia)) as B.
+    rewrite N.div_div in B by lia. change (16 * 16) with 256 in B.
+    remember (g / 16) as q. remember (g mod 16) as r0. remember (q mod 16) as r1. remember (g / 256) as q2.
+    clear - A B. lia. }
+  cbn [app length].
+  assert (g / 4096 mod 16 < 16) by (apply N.mod_lt; lia). assert (g / 256 mod 16 < 16) by (apply N.mod_lt; lia).
+  assert (g / 16 mod 16 < 16) by (apply N.mod_lt; lia). assert (g mod 16 < 16) by (apply N.mod_lt; lia).
+  rewrite !hexrun_dig by lia. rewrite hexrun_stop by exact Hr. do 3 f_equal.
+  pose proof (N.div_mod g 16 ltac:(lia)) as A. pose proof (N.div_mod (g / 16) 16 ltac:(lia)) as B.
+  pose proof (N.div_mod (g / 256) 16 ltac:(lia)) as C.
+  rewrite N.div_div in B by lia. change (16 * 16) with 256 in B.
+  rewrite N.div_div in C by lia. change (256 * 16) with 4096 in C.
+  assert (D : g / 4096 < 16) by (apply N.div_lt_upper_bound; lia).
+  rewrite (N.mod_small (g / 4096) 16) by exact D.
+  remember (g / 16) as q. remember (g mod 16) as r0. remember (q mod 16) as r1. remember (g / 256) as q2.
+  remember (q2 mod 16) as r2. remember (g / 4096) as q3.
+  clear - A B C. lia.
+Qed.
+
+Definition gok (g : N) : Prop := g < 65536.
+Definition gb (g : N) : bytes := [g / 256; g mod 256].
+Definition gbytes (gs : list N) : bytes := flat_map gb gs.
+Definition jn (gs : list N) : bytes := join_bytes [58] (map hex_word gs).
+
+Lemma hex_word_head g : gok g -> exists c r, hex_word g = c :: r /\ is_hexdigit c = true.
+Proof.
+  intro Hg. unfold gok in Hg. unfold hex_word.
+  destruct (N.ltb_spec g 16); [eexists; eexists; split; [reflexivity|apply hexdig_ok; lia]|].
+  destruct (N.ltb_spec g 256); [eexists; eexists; split; [reflexivity|apply hexdig_ok, N.div_lt_upper_bound; lia]|].
+  destruct (N.ltb_spec g 4096); [eexists; eexists; split; [reflexivity|apply hexdig_ok, N.div_lt_upper_bound; lia]|].
+  eexists; eexists; split; [reflexivity|apply hexdig_ok, N.mod_lt; lia].
+Qed.
+Lemma jn_cons2 g g2 r : jn (g :: g2 :: r) = hex_word g ++ 58 :: jn (g2 :: r).
+Proof. reflexivity. Qed.
+Lemma jn_head gs : gs <> [] -> Forall gok gs -> exists c r, jn gs = c :: r /\ is_hexdigit c = true.
+Proof.
+  destruct gs as [|g [|g2 r]]; [congruence| |]; intros _ H; inversion H as [|? ? Hg _]; subst;
+    destruct (hex_word_head g Hg) as (c & r0 & E & Hc).
+  - exists c, r0. split; [exact E|exact Hc].
+  - rewrite jn_cons2, E. exists c, (r0 ++ 58 :: jn (g2 :: r)). split; [reflexivity|exact Hc].
+Qed.
+Lemma hexdigit_not_sep c : is_hexdigit c = true -> (c =? 58) = false /\ (c =? 46) = false /\ (c =? 37) = false.
+Proof. unfold is_hexdigit, is_digit. intro H. lia. Qed.
+
+Lemma go_word f g rest ell acc : (length acc < 16)%nat -> gok g -> nonhex_head rest ->
+  ip6_parse_go (S f) (hex_word g ++ rest) ell acc =
+  let acc' := acc ++ gb g in
+  match rest with
+  | [] => Some (acc', ell)
+  | c :: r1 =>
+    if c =? 46 then
+      if negb (is_some ell) && negb (length acc =? 12)%nat then None
+      else if (16 <? length acc + 4)%nat then None
+      else match parse_ip4 (hex_word g ++ rest) with Some q => Some (acc ++ q, ell) | None => None end
+    else if negb (c =? 58) then None
+    else match r1 with
+         | [] => None
+         | c2 :: r2 =>
+           if c2 =? 58 then
+             if is_some ell then None
+             else if is_nil r2 then Some (acc', Some (length acc'))
+             else ip6_parse_go f r2 (Some (length acc')) acc'
+           else ip6_parse_go f r1 ell acc'
+         end
+  end.
+Proof.
+  intros Ha Hg Hr. cbn [ip6_parse_go]. replace (16 <=? length acc)%nat with false by lia.
+  rewrite hexrun_word by assumption.
+  pose proof (hex_word_len g). replace (length (hex_word g) =? 0)%nat with false by lia. reflexivity.
+Qed.
+
+Lemma go_last f g ell acc : (length acc < 16)%nat -> gok g ->
+  ip6_parse_go (S f) (hex_word g) ell acc = Some (acc ++ gb g, ell).
+Proof.
+  intros Ha Hg. rewrite <- (app_nil_r (hex_word g)) at 1. rewrite go_word; [reflexivity|assumption|assumption|exact I].
+Qed.
+Lemma go_colon f g c2 r2 ell acc : (length acc < 16)%nat -> gok g -> is_hexdigit c2 = true ->
+  ip6_parse_go (S f) (hex_word g ++ 58 :: c2 :: r2) ell acc = ip6_parse_go f (c2 :: r2) ell (acc ++ gb g).
+Proof.
+  intros Ha Hg Hc. rewrite go_word; [|assumption|assumption|reflexivity].
+  destruct (hexdigit_not_sep c2 Hc) as (E & _ & _). cbn zeta. cbn [N.eqb Pos.eqb negb]. rewrite E. reflexivity.
+Qed.
+Lemma go_ell_end f g acc : (length acc < 16)%nat -> gok g ->
+  ip6_parse_go (S f) (hex_word g ++ [58; 58]) None acc = Some (acc ++ gb g, Some (length (acc ++ gb g))).
+Proof. intros Ha Hg. rewrite go_word; [reflexivity|assumption|assumption|reflexivity]. Qed.
+Lemma go_ell f g c3 r3 acc : (length acc < 16)%nat -> gok g ->
+  ip6_parse_go (S f) (hex_word g ++ 58 :: 58 :: c3 :: r3) None acc =
+  ip6_parse_go f (c3 :: r3) (Some (length (acc ++ gb g))) (acc ++ gb g).
+Proof. intros Ha Hg. rewrite go_word; [reflexivity|assumption|assumption|reflexivity]. Qed.
+
+Lemma gbytes_len gs : length (gbytes gs) = (2 * length gs)%nat.
+Proof.
+  induction gs as [|g r IH]; [reflexivity|]. change (gbytes (g :: r)) with (gb g ++ gbytes r).
+  rewrite app_length, IH. cbn [gb length]. lia.
+Qed.
+
+Lemma go_groups_end gs : forall f acc ell, gs <> [] -> Forall gok gs ->
+  (length acc + 2 * length gs <= 16)%nat -> (length gs <= f)%nat ->
+  ip6_parse_go f (jn gs) ell acc = Some (acc ++ gbytes gs, ell).
+Proof.
+  induction gs as [|g r IH]; intros f acc ell Hne H Hl Hf; [congruence|].
+  inversion H as [|? ? Hg Hr]; subst. cbn [length] in Hl, Hf. destruct f as [|f]; [lia|].
+  destruct r as [|g2 r2].
+  - cbn [gbytes flat_map]. rewrite app_nil_r. apply go_last; [lia|exact Hg].
+  - rewrite jn_cons2. destruct (jn_head (g2 :: r2) ltac:(discriminate) Hr) as (c & r0 & E & Hc). rewrite E.
+    rewrite go_colon by (assumption || lia). rewrite <- E.
+    rewrite IH; [|discriminate|exact Hr| |lia].
+    + cbn [gbytes flat_map]. now rewrite <- app_assoc.
+    + rewrite app_length. cbn [gb length]. cbn [length] in Hl. lia.
+Qed.
+
+Lemma go_groups_ell A : forall B f acc, A <> [] -> Forall gok A -> Forall gok B ->
+  (length acc + 2 * (length A + length B) < 16)%nat -> (length A + length B <= f)%nat ->
+  ip6_parse_go f (jn A ++ 58 :: 58 :: jn B) None acc =
+  Some (acc ++ gbytes A ++ gbytes B, Some (length (acc ++ gbytes A))).
+Proof.
+  induction A as [|g r IH]; intros B f acc Hne HA HB Hl Hf; [congruence|].
+  inversion HA as [|? ? Hg Hr]; subst. cbn [length] in Hl, Hf. destruct f as [|f]; [lia|].
+  destruct r as [|g2 r2].
+  - change (jn [g]) with (hex_word g). cbn [gbytes flat_map]. rewrite app_nil_r.
+    destruct B as [|b B'].
+    + change (jn []) with (@nil N). rewrite go_ell_end by (assumption || lia). cbn [gbytes flat_map]. now rewrite app_nil_r.
+    + destruct (jn_head (b :: B') ltac:(discriminate) HB) as (c & r0 & E & Hc). rewrite E.
+      rewrite go_ell by (assumption || lia). rewrite <- E.
+      rewrite go_groups_end; [|discriminate|exact HB| |cbn [length] in *; lia].
+      * now rewrite <- app_assoc.
+      * rewrite app_length. cbn [gb length] in *. lia.
+  - rewrite jn_cons2. rewrite <- app_assoc. cbn [app].
+    destruct (jn_head (g2 :: r2) ltac:(discriminate) Hr) as (c & r0 & E & Hc). rewrite E. cbn [app].
+    rewrite go_colon by (assumption || lia).
+    change (c :: r0 ++ 58 :: 58 :: jn B) with ((c :: r0) ++ 58 :: 58 :: jn B). rewrite <- E.
+    rewrite IH; [|discriminate|exact Hr|exact HB| |cbn [length] in *; lia].
+    + cbn [gbytes flat_map]. rewrite <- !app_assoc. reflexivity.
+    + rewrite app_length. cbn [gb length] in *. lia.
+Qed.
+
+Lemma lead_false c r : is_hexdigit c = true ->
+  match c :: r with c1 :: c2 :: _ => (c1 =? 58) && (c2 =? 58) | _ => false end = false.
+Proof. intro H. destruct (hexdigit_not_sep c H) as (E & _). destruct r; [reflexivity|]. now rewrite E. Qed.
+
+Theorem parse_full gs : length gs = 8%nat -> Forall gok gs -> parse_ip6 (jn gs) = Some (gbytes gs).
+Proof.
+  intros Hl H. assert (Hne : gs <> []) by (destruct gs; [discriminate|discriminate]).
+  destruct (jn_head gs Hne H) as (c & r & E & Hc). unfold parse_ip6. rewrite E, (lead_false c r Hc). rewrite <- E.
+  cbn [andb]. rewrite go_groups_end by (assumption || cbn [length]; lia). cbn [app].
+  rewrite gbytes_len, Hl. reflexivity.
+Qed.
+
+Theorem parse_shape A B : A <> [] -> Forall gok A -> Forall gok B -> (length A + length B < 8)%nat ->
+  parse_ip6 (jn A ++ 58 :: 58 :: jn B) =
+  Some (gbytes A ++ repeat 0 (16 - 2 * length A - 2 * length B) ++ gbytes B).
+Proof.
+  intros Hne HA HB Hl.
+  destruct (jn_head A Hne HA) as (c & r & E & Hc). unfold parse_ip6. rewrite E. cbn [app].
+  rewrite (lead_false c _ Hc). change (c :: r ++ 58 :: 58 :: jn B) with ((c :: r) ++ 58 :: 58 :: jn B). rewrite <- E.
+  cbn [andb]. rewrite go_groups_ell by (assumption || cbn [length]; lia). cbn [app].
+  rewrite app_length, !gbytes_len.
+  replace (2 * length A + 2 * length B <? 16)%nat with true by lia.
+  rewrite <- (gbytes_len A).
+  rewrite firstn_app, Nat.sub_diag, firstn_all, firstn_O, app_nil_r.
+  rewrite skipn_app, Nat.sub_diag, skipn_all, skipn_O. cbn [app].
+  rewrite (gbytes_len A). do 4 f_equal. lia.
+Qed.
+
+Theorem parse_shape0 B : Forall gok B -> (length B < 8)%nat ->
+  parse_ip6 (58 :: 58 :: jn B) = Some (repeat 0 (16 - 2 * length B) ++ gbytes B).
+Proof.
+  intros HB Hl. unfold parse_ip6. change (58 =? 58) with true. cbn [andb skipn].
+  destruct B as [|b B'].
+  - reflexivity.
+  - destruct (jn_head (b :: B') ltac:(discriminate) HB) as (c & r & E & Hc). rewrite E. cbn [is_nil]. rewrite <- E.
+    rewrite go_groups_end by (assumption || discriminate || cbn [length] in *; lia). cbn [app].
+    rewrite gbytes_len. replace (2 * length (b :: B') <? 16)%nat with true by lia.
+    cbn [firstn skipn app]. reflexivity.
+Qed.
+
+(* ---- the printer ---- *)
+Fixpoint zrunb (p : list bool) : nat := match p with true :: r => S (zrunb r) | _ => O end.
+Fixpoint best_runb (p : list bool) (i zs ze : nat) : nat * nat :=
+  match p with
+  | [] => (zs, ze)
+  | _ :: r => let l := zrunb p in
+              if (2 <=? l)%nat && (ze - zs <? l)%nat then best_runb r (S i) i (i + l) else best_runb r (S i) zs ze
+  end.
+Definition zpat (gs : list N) : list bool := map (fun g => g =? 0) gs.
+Lemma zrun_b gs : zrun gs = zrunb (zpat gs).
+Proof. induction gs as [|g r IH]; [reflexivity|]. cbn [zrun zpat map zrunb]. fold (zpat r). destruct (g =? 0); [now rewrite IH|reflexivity]. Qed.
+Lemma best_run_b gs : forall i zs ze, best_run gs i zs ze = best_runb (zpat gs) i zs ze.
+Proof.
+  induction gs as [|g r IH]; intros i zs ze; [reflexivity|].
+  cbn [best_run zpat map best_runb]. fold (zpat r). change ((g =? 0) :: zpat r) with (zpat (g :: r)).
+  rewrite <- zrun_b. destruct ((2 <=? zrun (g :: r))%nat && (ze - zs <? zrun (g :: r))%nat); apply IH.
+Qed.
+Fixpoint allb (n : nat) : list (list bool) :=
+  match n with O => [[]] | S k => map (cons true) (allb k) ++ map (cons false) (allb k) end.
+Lemma allb_in n : forall p, length p = n -> In p (allb n).
+Proof.
+  induction n as [|k IH]; intros p H.
+  - destruct p; [now left|discriminate].
+  - destruct p as [|b r]; [discriminate|]. cbn [allb]. apply in_or_app. injection H as H.
+    destruct b; [left|right]; apply in_map; now apply IH.
+Qed.
+Definition run_check (p : list bool) : bool :=
+  let '(zs, ze) := best_runb p 0 255 255 in
+  ((zs =? 255) && (ze =? 255))%nat ||
+  ((zs <? ze) && (ze <=? 8) &&
+   forallb (fun j => negb ((zs <=? j) && (j <? ze)) || nth j p true) (seq 0 8))%nat.
+Lemma runs_checked : forallb run_check (allb 8) = true.
+Proof. vm_compute. reflexivity. Qed.
+
+Lemma best_run_spec gs : length gs = 8%nat ->
+  let '(zs, ze) := best_run gs 0 255 255 in
+  (zs = 255 /\ ze = 255)%nat \/
+  ((zs < ze <= 8)%nat /\ forall j, (zs <= j < ze)%nat -> nth j gs 0 = 0).
+Proof.
+  intro Hl. rewrite best_run_b. pose proof runs_checked as C. rewrite forallb_forall in C.
+  assert (Hz : length (zpat gs) = 8%nat) by (unfold zpat; now rewrite map_length).
+  specialize (C (zpat gs) (allb_in 8 _ Hz)).
+  unfold run_check in C. destruct (best_runb (zpat gs) 0 255 255) as [zs ze].
+  apply orb_prop in C. destruct C as [C|C].
+  - left. lia.
+  - right. apply andb_prop in C. destruct C as [C C3]. split; [lia|].
+    intros j Hj. rewrite forallb_forall in C3. specialize (C3 j ltac:(apply in_seq; lia)).
+    replace ((zs <=? j)%nat && (j <? ze)%nat) with true in C3 by lia. cbn [negb orb] in C3.
+    unfold zpat in C3. change true with ((fun g => g =? 0) 0) in C3 at 1. rewrite map_nth in C3.
+    now apply N.eqb_eq in C3.
+Qed.
+
+Lemma hex_word_all (P : N -> bool) g : (forall x, x < 16 -> P (hexdig x) = true) -> gok g ->
+  forallb P (hex_word g) = true.
+Proof.
+  intros HP Hg. unfold gok in Hg. unfold hex_word.
+  destruct (N.ltb_spec g 16); [cbn [forallb]; rewrite HP by lia; reflexivity|].
+  destruct (N.ltb_spec g 256).
+  { cbn [forallb]. rewrite !HP by (apply N.div_lt_upper_bound || apply N.mod_lt; lia). reflexivity. }
+  destruct (N.ltb_spec g 4096).
+  { cbn [forallb]. rewrite !HP by (apply N.div_lt_upper_bound || apply N.mod_lt; lia). reflexivity. }
+  cbn [forallb]. rewrite !HP by (apply N.mod_lt; lia). reflexivity.
+Qed.
+Lemma hex_word_ordinary g : gok g -> forallb ordinary (hex_word g) = true.
+Proof. apply hex_word_all. intros x Hx. apply hexdig_ok, Hx. Qed.
+Definition nosep (c : N) : bool := negb ((c =? 46) || (c =? 58) || (c =? 37)).
+Lemma hex_word_nosep g : gok g -> forallb nosep (hex_word g) = true.
+Proof.
+  apply hex_word_all. intros x Hx. destruct (hexdig_ok x Hx) as (H & _).
+  destruct (hexdigit_not_sep _ H) as (A & B & C). unfold nosep. now rewrite A, B, C.
+Qed.
+Lemma first_sep_skip ds r : forallb nosep ds = true -> first_sep (ds ++ r) = first_sep r.
+Proof.
+  induction ds as [|d ds IH]; intro H; [reflexivity|]. cbn [forallb] in H. apply andb_prop in H. destruct H as [Hd Hr].
+  cbn [app first_sep]. unfold nosep in Hd. apply negb_true_iff in Hd. rewrite Hd. now apply IH.
+Qed.
+Lemma first_sep_jn A rest : Forall gok A -> first_sep (jn A ++ 58 :: rest) = 58.
+Proof.
+  intro H. destruct A as [|a [|a2 r]].
+  - reflexivity.
+  - inversion H; subst. change (jn [a]) with (hex_word a). rewrite first_sep_skip by now apply hex_word_nosep. reflexivity.
+  - inversion H; subst. rewrite jn_cons2, <- app_assoc. rewrite first_sep_skip by now apply hex_word_nosep. reflexivity.
+Qed.
+Lemma jn_ordinary gs : Forall gok gs -> forallb ordinary (jn gs) = true.
+Proof.
+  induction gs as [|g r IH]; intro H; [reflexivity|]. inversion H as [|? ? Hg Hr]; subst.
+  destruct r as [|g2 r2]; [now apply hex_word_ordinary|].
+  rewrite jn_cons2, ordinary_app, hex_word_ordinary by exact Hg. cbn [forallb andb]. rewrite IH by exact Hr. reflexivity.
+Qed.
+
+Theorem parse_shape_any A B : Forall gok A -> Forall gok B -> (length A + length B < 8)%nat ->
+  parse_ip6 (jn A ++ 58 :: 58 :: jn B) =
+  Some (gbytes A ++ repeat 0 (16 - 2 * length A - 2 * length B) ++ gbytes B).
+Proof.
+  intros HA HB Hl. destruct A as [|a A'].
+  - change (jn [] ++ 58 :: 58 :: jn B) with (58 :: 58 :: jn B). rewrite parse_shape0 by (assumption || cbn [length] in Hl; lia).
+    reflexivity.
+  - apply parse_shape; [discriminate|assumption|assumption|exact Hl].
+Qed.
+
+Definition ip6_text (gs : list N) : bytes := let '(zs, ze) := best_run gs 0 255 255 in ip6_go 9 0 gs zs ze.
+
+Section Shape.
+Variables g0 g1 g2 g3 g4 g5 g6 g7 : N.
+Let gs := [g0; g1; g2; g3; g4; g5; g6; g7].
+Lemma ip6_go_none : ip6_go 9 0 gs 255 255 = jn gs.
+Proof. unfold gs. cbn [ip6_go Nat.leb Nat.eqb Nat.ltb nth jn map join_bytes app]. rewrite app_nil_r. reflexivity. Qed.
+Lemma ip6_go_shape zs ze : (zs < ze <= 8)%nat ->
+  ip6_go 9 0 gs zs ze = jn (firstn zs gs) ++ 58 :: 58 :: jn (skipn ze gs).
+Proof.
+  intro H. unfold gs.
+  destruct zs as [|[|[|[|[|[|[|[|zs]]]]]]]]; [| | | | | | | |lia];
+  destruct ze as [|[|[|[|[|[|[|[|[|ze]]]]]]]]]; try lia;
+    cbn [ip6_go Nat.leb Nat.eqb Nat.ltb nth jn map join_bytes app firstn skipn];
+    repeat (first [rewrite <- app_assoc | rewrite app_nil_r | progress (cbn [app])]); reflexivity.
+Qed.
+End Shape.
+
+Lemma Forall_firstn' {A} (P : A -> Prop) l : forall n, Forall P l -> Forall P (firstn n l).
+Proof. induction l as [|x l IH]; intros n H; destruct n; cbn; try constructor; inversion H; subst; auto. Qed.
+Lemma Forall_skipn' {A} (P : A -> Prop) l : forall n, Forall P l -> Forall P (skipn n l).
+Proof. induction l as [|x l IH]; intros n H; destruct n; cbn; auto. inversion H; subst; auto. Qed.
+Lemma word_ok_text t : t <> [] -> forallb ordinary t = true -> word_ok t = true.
+Proof. apply word_ok_ordinary. Qed.
+
+Theorem ip6_text_roundtrip gs : length gs = 8%nat -> Forall gok gs ->
+  parse_ip6 (ip6_text gs) = Some (gbytes gs) /\ forallb ordinary (ip6_text gs) = true /\
+  first_sep (ip6_text gs) = 58.
+Proof.
+  intros Hl H. pose proof (best_run_spec gs Hl) as S. unfold ip6_text.
+  destruct gs as [|g0 [|g1 [|g2 [|g3 [|g4 [|g5 [|g6 [|g7 [|? ?]]]]]]]]]; try discriminate.
+  destruct (best_run [g0; g1; g2; g3; g4; g5; g6; g7] 0 255 255) as [zs ze].
+  destruct S as [[-> ->]|[Hr Hz]].
+  - rewrite ip6_go_none. split; [now apply parse_full|]. split; [now apply jn_ordinary|].
+    inversion H as [|? ? G0 H1]; subst. rewrite jn_cons2. rewrite first_sep_skip by now apply hex_word_nosep. reflexivity.
+  - rewrite ip6_go_shape by exact Hr.
+    assert (HA : Forall gok (firstn zs [g0; g1; g2; g3; g4; g5; g6; g7])) by now apply Forall_firstn'.
+    assert (HB : Forall gok (skipn ze [g0; g1; g2; g3; g4; g5; g6; g7])) by now apply Forall_skipn'.
+    split; [|split].
+    + pose proof (Hz 0%nat) as Z0. pose proof (Hz 1%nat) as Z1. pose proof (Hz 2%nat) as Z2. pose proof (Hz 3%nat) as Z3.
+      pose proof (Hz 4%nat) as Z4. pose proof (Hz 5%nat) as Z5. pose proof (Hz 6%nat) as Z6. pose proof (Hz 7%nat) as Z7.
+      cbn [nth] in Z0, Z1, Z2, Z3, Z4, Z5, Z6, Z7. clear Hz.
+      rewrite parse_shape_any; [|exact HA|exact HB|].
+      2:{ rewrite firstn_length, skipn_length. cbn [length]. lia. }
+      clear HA HB H.
+      destruct zs as [|[|[|[|[|[|[|[|zs]]]]]]]]; [| | | | | | | |lia];
+      destruct ze as [|[|[|[|[|[|[|[|[|ze]]]]]]]]]; try lia;
+        repeat match goal with
+               | Z : (_ <= _ < _)%nat -> _ = 0 |- _ => first [specialize (Z ltac:(lia)); subst | clear Z]
+               end;
+        reflexivity.
+    + rewrite ordinary_app. rewrite jn_ordinary by exact HA. cbn [forallb andb].
+      change (ordinary 58) with true. cbn [andb]. now apply jn_ordinary.
+    + now apply first_sep_jn.
+Qed.
+
+Lemma gb_pair hi lo : hi < 256 -> lo < 256 -> gb (hi * 256 + lo) = [hi; lo].
+Proof.
+  intros Hh Hl. unfold gb. f_equal; [|f_equal].
+  - symmetry. apply N.div_unique with lo; lia.
+  - symmetry. apply N.mod_unique with hi; lia.
+Qed.
+Lemma groups16_ok a : length a = 16%nat -> wfb a ->
+  length (groups16 a) = 8%nat /\ Forall gok (groups16 a) /\ gbytes (groups16 a) = a.
+Proof.
+  intros Hl Hw.
+  do 16 (destruct a as [|?b a]; [discriminate|]). destruct a; [|discriminate].
+  unfold wfb in Hw. repeat match goal with H : Forall _ (_ :: _) |- _ => inversion H; subst; clear H end.
+  cbn [groups16]. split; [reflexivity|]. split.
+  - repeat constructor; unfold gok; lia.
+  - cbn [gbytes flat_map]. rewrite !gb_pair by assumption. reflexivity.
+Qed.
+
+Theorem present_ip6_roundtrip a : length a = 16%nat -> wfb a ->
+  parse_ip6 (present_ip6 a) = Some a /\ word_ok (present_ip6 a) = true /\ first_sep (present_ip6 a) = 58.
+Proof.
+  intros Hl Hw. destruct (groups16_ok a Hl Hw) as (L & G & E).
+  change (present_ip6 a) with (ip6_text (groups16 a)).
+  destruct (ip6_text_roundtrip (groups16 a) L G) as (P & O & F). rewrite E in P.
+  split; [exact P|]. split; [|exact F].
+  apply word_ok_ordinary; [|exact O]. intro Hn. rewrite Hn in F. discriminate.
+Qed.
+
+(* ---- AAAA.String of an IPv4-mapped address: "::ffff:" and the dotted quad ---- *)
+Lemma go_step f s ell acc off v rest : (length acc < 16)%nat -> hexrun s 0 0 = Some (off, v, rest) -> off <> O ->
+  ip6_parse_go (S f) s ell acc =
+  let acc' := acc ++ [v / 256; v mod 256] in
+  match rest with
+  | [] => Some (acc', ell)
+  | c :: r1 =>
+    if c =? 46 then
+      if negb (is_some ell) && negb (length acc =? 12)%nat then None
+      else if (16 <? length acc + 4)%nat then None
+      else match parse_ip4 s with Some q => Some (acc ++ q, ell) | None => None end
+    else if negb (c =? 58) then None
+    else match r1 with
+         | [] => None
+         | c2 :: r2 =>
+           if c2 =? 58 then
+             if is_some ell then None
+             else if is_nil r2 then Some (acc', Some (length acc'))
+             else ip6_parse_go f r2 (Some (length acc')) acc'
+           else ip6_parse_go f r1 ell acc'
+         end
+  end.
+Proof.
+  intros Ha Hh Ho. cbn [ip6_parse_go]. replace (16 <=? length acc)%nat with false by lia. rewrite Hh.
+  destruct off; [congruence|]. reflexivity.
+Qed.
+
+Definition dec_check (q : N) : bool :=
+  let ds := dec_bytes q in forallb is_digit ds && (1 <=? length ds)%nat && (length ds <=? 3)%nat.
+Lemma dec_checked : forallb dec_check (map N.of_nat (seq 0 256)) = true.
+Proof. vm_compute. reflexivity. Qed.
+Lemma dec_octet q : q < 256 ->
+  forallb is_digit (dec_bytes q) = true /\ (1 <= length (dec_bytes q) <= 3)%nat.
+Proof.
+  intro H. pose proof dec_checked as C. rewrite forallb_forall in C.
+  assert (Hin : In q (map N.of_nat (seq 0 256))).
+  { apply in_map_iff. exists (N.to_nat q). split; [lia|apply in_seq; lia]. }
+  specialize (C q Hin). unfold dec_check in C. cbn zeta in C.
+  apply andb_prop in C. destruct C as [C C3]. apply andb_prop in C. destruct C as [C1 C2]. split; [exact C1|lia].
+Qed.
+Lemma hexrun_digits ds : forall rest off acc, forallb is_digit ds = true -> (off + length ds <= 4)%nat ->
+  nonhex_head rest -> exists v, hexrun (ds ++ rest) off acc = Some ((off + length ds)%nat, v, rest).
+Proof.
+  induction ds as [|d ds IH]; intros rest off acc Hd Hl Hr.
+  - exists acc. cbn [app length]. rewrite Nat.add_0_r. now apply hexrun_stop.
+  - cbn [forallb] in Hd. apply andb_prop in Hd. destruct Hd as [Hd1 Hd2]. cbn [app hexrun length] in *.
+    assert (Hx : is_hexdigit d = true) by (unfold is_hexdigit; now rewrite Hd1).
+    rewrite Hx. replace (3 <? off)%nat with false by lia.
+    destruct (IH rest (S off) (acc * 16 + hexval d) Hd2 ltac:(lia) Hr) as (v & E). exists v. rewrite E.
+    do 3 f_equal. lia.
+Qed.
+
+Theorem aaaa_v4mapped_roundtrip q : length q = 4%nat -> wfb q ->
+  parse_ip6 (b_v4in6 ++ present_ip4 q) = Some (v4mapped q) /\ word_ok (b_v4in6 ++ present_ip4 q) = true.
+Proof.
+  intros Hl Hw. split.
+  - destruct q as [|q0 [|q1 [|q2 [|q3 [|? ?]]]]]; try discriminate.
+    assert (H0 : q0 < 256) by (inversion Hw; assumption).
+    unfold parse_ip6, b_v4in6. cbn [app]. change (58 =? 58) with true. cbn [andb skipn is_nil].
+    change [102; 102; 102; 102] with (hex_word 65535).
+    change (102 :: 102 :: 102 :: 102 :: 58 :: present_ip4 [q0; q1; q2; q3])
+      with (hex_word 65535 ++ 58 :: present_ip4 [q0; q1; q2; q3]).
+    destruct (dec_octet q0 H0) as (D1 & D2).
+    set (T := join_bytes [46] (map dec_bytes [q1; q2; q3])).
+    assert (E : present_ip4 [q0; q1; q2; q3] = dec_bytes q0 ++ 46 :: T) by reflexivity.
+    destruct (dec_bytes q0) as [|c2 r2] eqn:Ed; [cbn in D2; lia|].
+    assert (Hc2 : is_hexdigit c2 = true).
+    { cbn [forallb] in D1. apply andb_prop in D1. unfold is_hexdigit. now rewrite (proj1 D1). }
+    rewrite E. cbn [app]. rewrite go_colon by (cbn [length]; lia || reflexivity || exact Hc2).
+    change (c2 :: r2 ++ 46 :: T) with ((c2 :: r2) ++ 46 :: T).
+    destruct (hexrun_digits (c2 :: r2) (46 :: T) 0 0 D1 ltac:(cbn [length] in *; lia) eq_refl) as (v & Hv).
+    assert (Hlen : (length ([] ++ gb 65535) < 16)%nat) by (cbn; lia).
+    assert (Hoff : (0 + length (c2 :: r2))%nat <> O) by (cbn [length]; lia).
+    rewrite (go_step _ _ _ _ _ _ _ Hlen Hv Hoff).
+    cbn zeta. change (46 =? 46) with true. cbn [is_some negb andb app length gb].
+    change (c2 :: r2 ++ 46 :: T) with ((c2 :: r2) ++ 46 :: T). rewrite <- E.
+    rewrite parse_ip4_present by assumption. reflexivity.
+  - destruct q as [|q0 [|q1 [|q2 [|q3 [|? ?]]]]]; try discriminate.
+    apply word_ok_ordinary; [discriminate|]. rewrite ordinary_app.
+    replace (forallb ordinary b_v4in6) with true by reflexivity. cbn [andb].
+    unfold present_ip4. cbn [map join_bytes]. rewrite !ordinary_app. cbn [forallb].
+    rewrite !(digits_ordinary _ (dec_bytes_digits _)). reflexivity.
+Qed.
